@@ -493,6 +493,9 @@ type runner struct {
 	// second-use steps (seconduse.go)
 	noBuild bool   // real() stops after Bind
 	step    string // what is being run, for messages
+	reuseNo int    // reusespec.go: rotates the decode routes
+	// replayCase: the case whose lines reproduce a failure found on a spec derived from it
+	replayCase *tcase
 }
 
 func (r *runner) fail(class, what string, tc *tcase) {
@@ -503,8 +506,11 @@ func (r *runner) fail(class, what string, tc *tcase) {
 		if r.step != "" {
 			what = "[" + r.step + "] " + what
 		}
+		if r.replayCase != nil {
+			tc = r.replayCase
+		}
 		r.fails = append(r.fails, lib.OracleFail{Class: class, What: what,
-			Replay: "vals " + tc.valsLine() + "\nspec " + tc.specLine() + "\n# (corpus format: put these two lines in corpus/C18/<name>.ops; every case runs in the spellings any, typed, array, decoded, and then in the second-use chains of seconduse.go)"})
+			Replay: "vals " + tc.valsLine() + "\nspec " + tc.specLine() + "\n# (corpus format: put these two lines in corpus/C18/<name>.ops; every case runs in the spellings any, typed, array, decoded, then in the second-use chains of seconduse.go and the re-used spec variable chains of reusespec.go)"})
 	}
 }
 
@@ -820,6 +826,7 @@ func (r *runner) run(tc *tcase) {
 
 	// ---- second use: one value list for several specs, Bind twice, Bind again with more values
 	r.secondUse(tc, tb)
+	r.reusedSpecVar(tc, tb)
 
 	// ---- evidence
 	for _, e := range tc.env {
@@ -1370,6 +1377,7 @@ func Run(c *lib.Ctx) {
 		"text/template is trusted and enters the model as the parameter TextTemplate; the theorems assume only `plain s → parse s ∧ exec s dot = s` (checked on every action-free string of every case by the harness)",
 		"Go's unspecified map iteration order (Meta.Env, reflect MapKeys, mapNode.children) is a parameter of the model; compared observations are order-free (keys sorted, error classes of all failing entries); cases where two templated keys of one map render to the same text are generated only without collisions",
 		"documents are JSON-like (nil, bool, numbers, string, lists, string-keyed maps); numbers are opaque to the walk; nil and empty containers are identified (the code returns the empty container for both)",
+		"re-used spec variable: the models take every decode target as fresh. From every case the documents FULL, MID (without the last env entry) and LESS (also without the first field, name and annotations) are decoded in the chains FULL→LESS, LESS→FULL, FULL→MID→LESS into ONE spec.Spec variable (types.Unmarshal(doc, &sp); store cursor.Decode(&sp); a []spec.Spec of length 1), each bound and built before the next arrives; the spec of every document is judged by the reference selection/substitution, compared with the model on the document's abstract spec and with the same document decoded into a fresh variable (one route per chain, rotating from case to case; thorough tier: every 16th case all nine)",
 		"second use: Bind is handed one caller-owned slice for several specs (as runtime.load does); after every Bind the slice must hold the same pointers to unchanged values, and every Bind/Build of a chain is compared with the model run on that spec alone (the model has no shared state) and judged by the reference selection/substitution; a re-Bind takes the bound spec as its input; after a failed Bind the chain stops (which entries were bound before the failure is unspecified: Env is a Go map)",
 		"Go spellings: every case runs with its documents (Fields values, env Data, probe documents) spelled four ways: []any / map[string]any only; typed containers ([]string, [][]string, map[string]string, map[string][]string, []map[string]string wherever all leaves are strings); the same with [N]string arrays; and as types.Unmarshal of the encoded spec yields them (all-string lists come back as []string, all-string maps as map[string]string). The model and the reference substitution see the abstract document; a typed run is compared with the model on the same abstract spec (Build only when text/template renders every string of the fields alike on both spellings of the environment: a missing key of a map[string]string renders \"\", of a map[string]any \"<no value>\"); an action-free document must also come back with the Go types it had",
 	}
